@@ -15,7 +15,10 @@ RULE = ("random CSPs of 1-6 variables (domains of 1-3 integer values): graph col
         "overtake infinity and reach the best_eval cap and the random.choice([]) IndexError); max_distance from "
         "diameter to diameter+2 (80%) or below the diameter; the real DbaComputation objects run under a seeded "
         "per-channel-FIFO schedule (6 policies, random start times) until quiescence, an exception or the step "
-        "budget. non-trivial = at least one complete DBA cycle; distinct = distinct case JSON")
+        "budget; the last max(4, n/40) cases of a run are unsatisfiable 2-colourings (odd cycle + tail, max_distance = "
+        "diameter, 450 steps: nobody may ever finish); harness/corpus/C09.json holds 7 fixed cases (same-name problem "
+        "pair with opposite tables, infinity=1000, triangle-with-tail). non-trivial = at least one complete DBA cycle; "
+        "distinct = distinct case JSON")
 MODELLED = ("DbaComputation (all handlers, weights, counter, postponed-message replay, end flood, IndexError path, "
             "the stop-then-back-to-ok-mode quirk) is modelled as a Net.v proto; every hook call, the final state of "
             "every computation and every in-flight message is compared with the model replaying the same schedule, "
